@@ -42,6 +42,8 @@ def gen_cases(tier, seed):
         bs = r.choice([4096, 65536, 1000000, 2 ** 63 - 1, 7000])
         spec = [{"p": "src", "k": "d"}] + tree.gen_tree(r, depth=2, fanout=4, kinds=("f", "f", "f", "d", "l"), prefix="src", nonutf8=False, max_entries=14,
                                                         sizes=[0, 1, 4096, 10000, 70000, 300000])
+        if r.random() < 0.3:
+            spec.append({"p": "src/a-fifo", "k": "fifo"})
         files_ = [e["p"] for e in spec if e["k"] == "f"]
         for hk in range(r.choice([0, 0, 1, 2])):
             if files_:
